@@ -357,7 +357,7 @@ func Main(body func(c *Ctx)) {
 
 	b := *budget
 	if b == 0 {
-		b = 150 * time.Second
+		b = 420 * time.Second
 		if *tier == "thorough" {
 			b = 40 * time.Minute
 		}
